@@ -37,7 +37,7 @@ func concSum(s string) string { return fmt.Sprintf("%08x", crc32.ChecksumIEEE([]
 func concResult(tag string, size int) *mcp.CallToolResult {
 	p := concPayload(tag, size)
 	return &mcp.CallToolResult{
-		Content:           []mcp.Content{mcp.NewTextContent(p), mcp.NewImageContent(concPayload(tag+"/img", size/4), "image/png"), mcp.NewTextContent(tag)},
+		Content: []mcp.Content{mcp.NewTextContent(p), mcp.NewImageContent(concPayload(tag+"/img", size/4), "image/png"), mcp.NewTextContent(tag)},
 		// (the members named like JSON-RPC's own: a response is routed by its envelope, whatever its payload says)
 		StructuredContent: map[string]any{"nonce": tag, "len": len(p), "sum": concSum(p), "method": tag, "id": tag,
 			"result": map[string]any{"jsonrpc": "2.0", "error": nil, "params": map[string]any{"method": "tools/call", "id": 1}}},
@@ -467,13 +467,23 @@ func runConcurrent(c *hk.Ctx) {
 		}
 		wg.Wait()
 		phaseCancel()
-		seen := map[concCaller]bool{}
-		for _, cl := range callers {
-			if !seen[cl] {
-				seen[cl] = true
-				cl.close()
+		// closing is bounded too (it may block behind a call that never came back)
+		closed := make(chan struct{})
+		go func() {
+			defer close(closed)
+			seen := map[concCaller]bool{}
+			for _, cl := range callers {
+				if !seen[cl] {
+					seen[cl] = true
+					cl.close()
+				}
 			}
+			closeSrv()
+		}()
+		select {
+		case <-closed:
+		case <-time.After(10 * time.Second):
+			c.Tag("e2e.concurrent.close-abandoned." + pl.mode)
 		}
-		closeSrv()
 	}
 }
